@@ -195,7 +195,7 @@ def execute(case):
     rec = {"case": case, "N": N, "jds": [list(j) for j in jds_in], "sizes": list(cfg["sizes"]),
            "motifs": motifs_rec, "custom": cfg["custom"], "calls": calls, "raised": "",
            "has_cols": False, "edge": [], "pair_ok": [], "top": [], "mid": [],
-           "has_net": False, "net_nodes": [], "net_jd": [], "net_edges": [],
+           "has_net": False, "net_nodes": [], "net_jd": [], "net_edges": [], "net_attr": [],
            "jds_out": [], "jds_ok": True, "jds_in_after": []}
 
     def make():
@@ -274,7 +274,7 @@ def _project(rec, res, N):
         rec["net_edges"] = [[int(a), int(b)] for a, b in G.edges()]
         rec["jds_out"] = [[int(x) for x in jd[n]] if n in jd else [-1] for n in sorted(G.nodes())]
         rec["jds_ok"] = len(jd) == G.number_of_nodes()
-        rec["net_attr"] = [[G.edges[e].get(NN.TOPOLOGY, "?"), G.edges[e].get(NN.MOTIF_IDS, -1)] for e in G.edges()]
+        rec["net_attr"] = [[str(G.edges[e].get(NN.TOPOLOGY, "?")), int(G.edges[e].get(NN.MOTIF_IDS, -1))] for e in G.edges()]
 
 
 def arrangement(rec):
